@@ -211,3 +211,33 @@ Example reach9_example :
      | _ => false
      end = true.
 Proof. vm_compute. repeat split. Qed.
+
+(* a ReachC9 history on the host model, constructor by constructor: parse file:///tmp/a (RC9_parse), session push("b c")
+   (RC9_psm_file), set_fragment("z") (RC9_step_file); by reach_partial9_model the last record is a fixpoint *)
+Example reach9_history : exists u0 u1 u2,
+  parse_url true mhp host_parse_opaque host_display None None (B "file:///tmp/a") = POk u0
+  /\ path_segments_session true u0 [PPush (B "b c")] = Some (u1, SOk)
+  /\ apply_op true mhp host_parse_opaque host_display u1 (OSetFragment (Some (B "z"))) = Some u2
+  /\ ser u2 = B "file:///tmp/a/b%20c#z"
+  /\ ReachC9 true mhp host_parse_opaque host_display u2.
+Proof.
+  eexists. eexists. eexists.
+  split; [vm_compute; reflexivity|]. split; [vm_compute; reflexivity|]. split; [vm_compute; reflexivity|].
+  split; [vm_compute; reflexivity|].
+  eapply RC9_step_file with (o := OSetFragment (Some (B "z"))).
+  - eapply RC9_psm_file with (ops := [PPush (B "b c")]).
+    + eapply RC9_parse with (ovr := None) (input := B "file:///tmp/a").
+      * repeat constructor; unfold is_usv; lia.
+      * vm_compute. reflexivity.
+      * vm_compute. reflexivity.
+    + vm_compute. reflexivity.
+    + vm_compute. reflexivity.
+    + constructor; [|constructor]. cbn [psm_op_usv]. repeat constructor; unfold is_usv; lia.
+    + vm_compute. reflexivity.
+    + vm_compute. discriminate.
+  - vm_compute. reflexivity.
+  - reflexivity.
+  - cbn [op_args_ok usv_opt]. repeat constructor; unfold is_usv; lia.
+  - vm_compute. reflexivity.
+  - vm_compute. discriminate.
+Qed.
